@@ -27,9 +27,17 @@ class SpartanProtocol(BaseGopherProtocol):
         except UnicodeEncodeError:
             return False
 
-        # Three non-empty parts, with the third part being an integer >= 0.
+        # Three non-empty parts: a host, an absolute path, and an integer >= 0.
+        # Requiring the path (and not the host) to start with "/" keeps gopher
+        # selectors such as "/Read Me 77" from being mistaken for spartan.
         parts = self.request.strip().split(" ")
-        return len(parts) == 3 and all(parts) and parts[2].isdigit()
+        return (
+            len(parts) == 3
+            and all(parts)
+            and parts[2].isdigit()
+            and parts[1].startswith("/")
+            and not parts[0].startswith("/")
+        )
 
     def handle(self):
         host, path, content_length = self.request.strip().split(" ")
